@@ -21,7 +21,7 @@ import (
 // C11 — no peer-supplied frame or protocol message can crash or wedge the process.
 
 func init() {
-	Register(&Scenario{Name: "byzantine-frames", Property: "C11", Fn: scByzFrames})
+	Register(&Scenario{Name: "byzantine-frames", Property: "C11", Fn: scByzFrames, Yields: true})
 	Register(&Scenario{Name: "byzantine-bytes", Property: "C11", Fn: scByzBytes})
 }
 
@@ -127,6 +127,30 @@ func scByzFrames(r *Run) {
 	n.Describe = FrameDesc
 	n.Cfg.Latency = time.Duration(1+r.Intn("cfg", 20)) * time.Millisecond
 	mp := NewMuxPair(r, n, 0)
+	// the honest traffic runs under ordinary stress in part of the runs: some loss, a socket that holds writers up,
+	// schedule perturbation in the tube code (retransmission rounds and acknowledgements interleave with the
+	// Byzantine input)
+	if r.Intn("stress", 3) == 0 {
+		n.Cfg.PDrop = r.Float("stress") * 0.25
+		n.Cfg.Jitter = time.Duration(r.Intn("stress", 30)) * time.Millisecond
+	}
+	if r.Intn("stress", 3) == 0 {
+		fns := []string{"tubes.(*Reliable).send", "tubes.(*Reliable)", "tubes.(*sender)", "tubes.(*Muxer)", "tubes."}
+		r.ArmYields([]string{fns[r.Intn("stress", len(fns))]}, 1+r.Intn("stress", 6), 1+r.Intn("stress", 60), []float64{0.02, 0.1, 0.5}[r.Intn("stress", 3)])
+		r.YieldsOn(true)
+	}
+	if r.Intn("stress", 4) == 0 {
+		pStall := 0.02 + 0.2*r.Float("stress")
+		for _, ep := range []*Endpoint{mp.EA, mp.EB} {
+			ep := ep
+			ep.WriteStall = func() time.Duration {
+				if !r.Fault("socket-write-stall", ep.Name, pStall) {
+					return 0
+				}
+				return time.Duration(1+r.Intn("stall:"+ep.Name, 100)) * time.Millisecond
+			}
+		}
+	}
 	honest, byz := mp.A, mp.B
 	honestAddr, byzAddr := mp.AddrA, mp.AddrB
 	if r.Intn("cfg", 2) == 0 { // the honest side may also be the client-role muxer
